@@ -137,7 +137,8 @@ CvaEntries(a) ==
              \o [i \in 1..Len(ZPairs) |-> <<"NormalizeZScore", << <<"TrueThresholdZScore", ZPairs[i][1]>>, <<"FalseThresholdZScore", ZPairs[i][2]>>,
                                                                    <<"StartVal", R(-1)>>, <<"EndVal", R(1)>> >> >>]
              \o [i \in 1..Len(ZPairs) |-> <<"CvtToFuzzyZScore", << <<"TrueThresholdZScore", ZPairs[i][1]>>, <<"FalseThresholdZScore", ZPairs[i][2]>> >> >>]
-             \o << <<"CvtToFuzzyZScore", <<>>>> >>
+             \o << <<"CvtToFuzzyZScore", <<>>>>, <<"NormalizeZScore", <<>>>>, <<"NormalizeZScore", << <<"TrueThresholdZScore", R(2)>> >> >>,
+                    <<"NormalizeZScore", << <<"FalseThresholdZScore", R(-1)>>, <<"EndVal", R(4)>> >> >> >>
              \o [i \in 1..Len(ZCurves) |-> <<"NormalizeCurveZScore", << <<"ZScoreValues", ZCurves[i][1]>>, <<"NormalValues", ZCurves[i][2]>> >> >>]
              \o [i \in 1..Len(ZCurves) |-> <<"CvtToFuzzyCurveZScore", << <<"ZScoreValues", ZCurves[i][1]>>, <<"FuzzyValues", ZCurves[i][2]>> >> >>]
              \o << <<"NormalizeCurveZScore", << <<"ZScoreValues", <<R(0), R(1)>>>>, <<"NormalValues", <<R(0)>>>> >> >> >>
